@@ -61,6 +61,9 @@ struct Obs {
     b: Option<Getters>,
     /// for io::Result-returning calls: Some(is_err)
     result: Option<bool>,
+    /// the operation made at least one terminal call / a fault was injected during it
+    drew: bool,
+    injected: bool,
 }
 
 impl C18 {
@@ -125,6 +128,7 @@ impl C18 {
         for (i, op) in hist.iter().enumerate() {
             clock::advance_ms(5);
             let inj0 = w.spy.st().faults_injected;
+            let calls0 = w.spy.st().fallible_calls;
             let r = catch(|| {
                 let mut result: Option<bool> = None;
                 let a = w.a.as_ref();
@@ -191,7 +195,7 @@ impl C18 {
                             panic = Some((i, format!("getter after the call: {p}")));
                             break;
                         }
-                        Ok((ga, gb)) => obs.push(Obs { a: ga, b: gb, result: result.map(|e| e == injected) }),
+                        Ok((ga, gb)) => obs.push(Obs { a: ga, b: gb, result: result.map(|e| e == injected), drew: w.spy.st().fallible_calls > calls0, injected }),
                     }
                 }
             }
@@ -310,6 +314,17 @@ impl Hist for C18 {
                         return mkbad("state: getters differ from the fault-free run".into(), fname, format!("op #{i} {:?}: {:?}/{:?} vs fault-free {:?}/{:?}", hist[i], o.a, o.b, o0.a, o0.b));
                     }
                 }
+                // "later calls keep working": after a single failed terminal call, an operation that
+                // paints in the fault-free run still reaches the terminal
+                if matches!(fault, Fault::Once(_)) {
+                    if let Some(fi) = obs.iter().position(|o| o.injected) {
+                        for i in fi + 1..obs.len().min(obs0.len()) {
+                            if obs0[i].drew && !obs[i].drew {
+                                return mkbad("dead: after one failed terminal call a later operation that paints in the fault-free run makes no terminal call at all".into(), fname, format!("op #{i} {:?} (the fault was injected during op #{fi} {:?})", hist[i], hist[fi]));
+                            }
+                        }
+                    }
+                }
                 if injected > 0 {
                     stats.bump("faulty_executions_with_an_injected_fault", 1);
                 }
@@ -329,10 +344,106 @@ fn configs(tier: Tier) -> Vec<(C18, usize)> {
     vec![(C18 { multi: false, root: 0 }, d + 1), (C18 { multi: true, root: 0 }, d), (C18 { multi: true, root: 1 }, d2), (C18 { multi: true, root: 2 }, d2), (C18 { multi: true, root: 3 }, d2)]
 }
 
+fn long_case(multi: bool, hz: Option<u8>, k: usize, op: u8, n: usize, hist: &[String]) -> Option<(String, String)> {
+    crate::util::watch("C18", "hang: a call never returns after a terminal fault (lock taken twice / deadlock)", "long persistent failure", hist.to_vec(), 20.0);
+    clock::reset();
+    let spy = Spy::new(30, 20, false);
+    let target = |spy: &Spy| match hz {
+        None => ProgressDrawTarget::term_like(spy.boxed()),
+        Some(h) => ProgressDrawTarget::term_like_with_hz(spy.boxed(), h),
+    };
+    let mk = |t: ProgressDrawTarget| ProgressBar::with_draw_target(Some(5), t).with_style(style(2));
+    let (mp, a, b) = if multi {
+        let mp = MultiProgress::with_draw_target(target(&spy));
+        let a = mp.add(mk(ProgressDrawTarget::hidden()).with_prefix("a"));
+        let b = mp.add(mk(ProgressDrawTarget::hidden()).with_prefix("b"));
+        (Some(mp), a, Some(b))
+    } else {
+        (None, mk(target(&spy)).with_prefix("a"), None)
+    };
+    a.tick();
+    spy.st().fallible_calls = 0;
+    spy.st().fault = Fault::From(k);
+    let mut failed_at = None;
+    for i in 0..n {
+        clock::advance_ms(1);
+        let r = catch(|| match op {
+            0 => a.println("log"),
+            1 => a.force_draw(),
+            2 => a.tick(),
+            3 => a.suspend(|| ()),
+            4 => {
+                let _ = mp.as_ref().unwrap().println("L");
+            }
+            _ => {
+                let _ = mp.as_ref().unwrap().clear();
+            }
+        });
+        if let Err(p) = r {
+            failed_at = Some((i, p));
+            break;
+        }
+    }
+    let world = std::mem::ManuallyDrop::new((mp, a, b));
+    let verdict = match failed_at {
+        Some((i, p)) => Some((format!("panic: a terminal fault makes a call panic: {}", panic_class(&p)), format!("repetition #{i}: {p}"))),
+        None => {
+            let e = catch(move || {
+                let w = world;
+                w.1.inc(1);
+                let _ = (w.1.position(), w.1.message());
+                if let Some(b) = w.2.as_ref() {
+                    b.tick();
+                }
+                if let Some(mp) = w.0.as_ref() {
+                    let _ = mp.println("epilogue");
+                }
+                let (mp, a, b) = std::mem::ManuallyDrop::into_inner(w);
+                drop(a);
+                drop(b);
+                drop(mp);
+            });
+            e.err().map(|p| (if p.contains("PoisonError") { format!("poisoned: epilogue panics on a poisoned lock: {}", panic_class(&p)) } else { format!("panic: epilogue panics after a terminal fault: {}", panic_class(&p)) }, p))
+        }
+    };
+    crate::util::unwatch();
+    verdict
+}
+
+/// A terminal that stays broken for a long time: one operation repeated n times on a rate-limited
+/// target while every terminal call from the k-th on fails, for every n up to the bound (the run is
+/// one history; every prefix of it is a run that ended earlier).
+fn long_faults(tier: Tier, shard: Shard, stats: &mut Stats) {
+    let n = if tier == Tier::Quick { 300 } else { 1500 };
+    let mut case = 0u64;
+    for multi in [false, true] {
+        for hz in [None, Some(20u8), Some(255)] {
+            for k in [0usize, 1, 4, 9] {
+                for op in 0..6u8 {
+                    case += 1;
+                    if !shard.owns(case) || (op >= 4 && !multi) {
+                        continue;
+                    }
+                    stats.evaluations += n as u64;
+                    stats.transitions += n as u64;
+                    let names = ["println", "force_draw", "tick", "suspend", "mp.println", "mp.clear"];
+                    let hist = vec![format!("{} on a target with refresh rate {:?}", if multi { "two-bar MultiProgress" } else { "single bar" }, hz), format!("{} x {n}, 1 ms apart", names[op as usize]), format!("fault From({k}) kind Other")];
+                    let verdict = long_case(multi, hz, k, op, n, &hist);
+                    match verdict {
+                        Some((class, detail)) => stats.violation(Violation { class, config: "long persistent failure".into(), history: hist, detail }),
+                        None => stats.state(hash_of(&("long", multi, hz, k, op)), true),
+                    }
+                }
+            }
+        }
+    }
+}
+
 pub fn run(tier: Tier, shard: Shard, stats: &mut Stats) {
     for (cfg, depth) in configs(tier) {
         Dfs::new(&cfg, depth, shard, 1).explore(stats);
     }
+    long_faults(tier, shard, stats);
 }
 
 pub fn meta(tier: Tier) -> Meta {
@@ -340,7 +451,7 @@ pub fn meta(tier: Tier) -> Meta {
     let d2 = if tier == Tier::Quick { 2 } else { 3 };
     Meta {
         level: "fault_enumeration",
-        rule: format!("every history of <= {} operations on a single bar (14 operations) and <= {d} on a two-bar MultiProgress (24 operations incl. println/clear/suspend/remove/add/insert/set_draw_target and finish/drop of the sibling), plus histories of <= {d2} operations from three further MultiProgress roots (bottom alignment with padding pending, a deferred zombie in the middle, bottom alignment with three live bars), is first run fault-free to count its N fallible terminal calls; then it is re-run for every k < N with the k-th call failing once, and with the k-th and all later calls failing; oracle: no call unwinds, io::Result-returning calls report exactly the injected failures, getters equal the fault-free run after every operation, and a fixed epilogue (tick, inc, getters, sibling tick, mp.println, mp.clear, drop all) completes; distinct = (history, N); non-trivial = N > 0", d + 1),
+        rule: format!("every history of <= {} operations on a single bar (14 operations) and <= {d} on a two-bar MultiProgress (24 operations incl. println/clear/suspend/remove/add/insert/set_draw_target and finish/drop of the sibling), plus histories of <= {d2} operations from three further MultiProgress roots (bottom alignment with padding pending, a deferred zombie in the middle, bottom alignment with three live bars), is first run fault-free to count its N fallible terminal calls; then it is re-run for every k < N with the k-th call failing once, and with the k-th and all later calls failing; oracle: no call unwinds, io::Result-returning calls report exactly the injected failures, getters equal the fault-free run after every operation, an operation that paints in the fault-free run still reaches the terminal after a single earlier failure, and a fixed epilogue (tick, inc, getters, sibling tick, mp.println, mp.clear, drop all) completes; plus long persistent failures: println / force_draw / tick / suspend / mp.println / mp.clear repeated 300 (1500) times on unlimited, 20 Hz and 255 Hz targets while every terminal call from the k-th on fails (k in 0,1,4,9); distinct = (history, N); non-trivial = N > 0", d + 1),
         assumptions: vec!["a failing terminal call has no effect on the terminal and returns io::ErrorKind::Other".into(), "one fault episode per execution (once, or from then on)".into()],
         bounds: json!({"depth_single": d + 1, "depth_multi": d, "depth_multi_other_roots": d2}),
         exhaustive: true,
@@ -348,6 +459,31 @@ pub fn meta(tier: Tier) -> Meta {
 }
 
 pub fn replay(v: &Value) -> i32 {
+    if v["config"] == "long persistent failure" {
+        let h: Vec<String> = v["history"].as_array().map(|a| a.iter().map(|s| s.as_str().unwrap_or("").to_string()).collect()).unwrap_or_default();
+        let multi = h[0].starts_with("two-bar");
+        let hz = if h[0].contains("Some(20)") { Some(20u8) } else if h[0].contains("Some(255)") { Some(255) } else { None };
+        let names = ["println", "force_draw", "tick", "suspend", "mp.println", "mp.clear"];
+        let op = names.iter().position(|n| h[1].starts_with(&format!("{n} x"))).unwrap_or(0) as u8;
+        let n: usize = h[1].split(" x ").nth(1).and_then(|r| r.split(',').next()).and_then(|x| x.trim().parse().ok()).unwrap_or(300);
+        let k: usize = h[2].split("From(").nth(1).and_then(|r| r.split(')').next()).and_then(|x| x.parse().ok()).unwrap_or(0);
+        let (r1, r2) = (long_case(multi, hz, k, op, n, &h), long_case(multi, hz, k, op, n, &h));
+        if r1 != r2 {
+            println!("MACHINERY-ERROR: replay is not deterministic");
+            return 2;
+        }
+        return match r1 {
+            Some((class, detail)) => {
+                println!("VIOLATION class={class} detail={detail}");
+                println!("VIOLATION property=C18 replay=(this file)");
+                1
+            }
+            None => {
+                println!("ok: {n} repetitions and the epilogue completed");
+                0
+            }
+        };
+    }
     let mut hist: Vec<String> = v["history"].as_array().map(|a| a.iter().map(|s| s.as_str().unwrap_or("").to_string()).collect()).unwrap_or_default();
     hist.pop(); // the fault descriptor
     for (cfg, _) in configs(Tier::Thorough) {
